@@ -19,15 +19,21 @@ PROP = dict(
         "`(<>=)` (which calls Equal) only on operands written as literals; a sugar-headed tuple always has a numeric `@` "
         "(other shapes panic by design: KF-pinned-panics of C10)",
     ],
-    level_text="Proof: Lean theorems about an executable transliteration of the (repaired) Go set representations and of "
-               "rel/ops_set.go - per representation (EmptySet, TrueSet, GenericSet, String, Bytes, Array, Dict, Relation, "
-               "UnionSet) an interface contract (the enumeration lists exactly the members, pairwise distinct; Has/Count/Where "
-               "refine membership/cardinality/filter of the finite set denoted and return well-formed representations), then "
-               "Intersect/Difference for every mix of representations, count = number of distinct members, the builders "
-               "(asString/asArray/asBytes/NewDict) and the finite-set algebra of the specification (union/inter/diff/symdiff/"
-               "insert/erase/filter/image/power set/subset). The model is tied to /repo by running both on generated programs "
-               "of the set-algebra family (every operator x every representation x relation of the operands) on every run. "
-               "Partial where a byte array would need holes or a sequence two values at one index (known findings).",
+    level_text="Proof: 50 Lean theorems about an executable transliteration of the (repaired) Go set representations and of "
+               "rel/ops_set.go. Per representation (EmptySet, TrueSet, GenericSet, String, Bytes, Array, Dict, Relation, "
+               "UnionSet) an interface contract: the enumeration lists exactly the members, pairwise distinct and of the "
+               "representation's own bucket; Has/Count/IsTrue/With/Without/Where refine membership/cardinality/insert/erase/"
+               "filter of the finite set denoted and return well-formed values. From the contracts: SetBuilder.Finish, "
+               "CanonicalSet, Intersect, Union, Difference, SymmetricDifference for every mix of representations (incl. "
+               "UnionSet x UnionSet per bucket, UnionSet x plain, the element-wise default path), the subset comparisons, "
+               "count = number of distinct members, `=>` through the builder; the finite-set algebra of the specification "
+               "(union/inter/diff/symdiff/insert/erase/filter/image/power set/subset, canonical results). PowerSet is proved "
+               "for the EmptySet/GenericSet paths only and whole programs (operators applied to results of operators) are "
+               "covered by the correspondence run: both stay stated as `_full` propositions. Partial (admissibility "
+               "hypotheses, each refuted at full strength by a witness theorem) where a byte array would need holes or a "
+               "sequence two values at one index (known findings). The model is tied to /repo by running both on generated "
+               "programs of the set-algebra family (operator x representation x representation x relation of the operands; "
+               "observables canon, count, three membership probes) on every run.",
     design_ref="DESIGN.md section 6, C01",
     watch=["rel.Intersect", "rel.Union", "rel.Difference", "rel.SymmetricDifference", "rel.PowerSet",
            "rel.SetBuilder.Add", "rel.SetBuilder.Finish", "rel.asString", "rel.asBytes", "rel.asArray", "rel.NewDict",
